@@ -268,12 +268,22 @@ def run(ctx):
     cov["refdecoder_selftest_cases"] = wc.selftest(ctx, binary)
     k = 3 if ctx.quick else 40
     idc = '{"rand", "carryLE", "carryBE", "carryHdr"}' if ctx.quick else '{"rand", "carryLE", "carryBE", "carryHdr", "sweep"}'
-    vecs, r = wc.tlc_part(ctx, "send", {"NICs": NICS, "IdClasses": idc, "Parts": '{"send"}'}, timeout=1200)
-    cov["tlc"] = {"send": dict(r.summary(), exported=len(vecs))}
-    results, summary = wc.drive(ctx, binary, "send", vecs, k, "send", timeout=1500)
+    allvecs, r = wc.tlc_part(ctx, "send", {"NICs": NICS, "IdClasses": idc, "WriteFailures": '{"none", "temp1", "perm1", "temp2"}',
+                                           "Parts": '{"send"}'}, timeout=1800)
+    cov["tlc"] = {"send": dict(r.summary(), exported=len(allvecs))}
+    vecs = [v for v in allvecs if v.get("wf", "none") == "none"]
+    results, summary = wc.drive(ctx, binary, "send", vecs, k, "send", timeout=1800)
     if summary.get("instances") != len(vecs) * k:
         raise vlib.InfraError("driver executed %s of %d instances" % (summary.get("instances"), len(vecs) * k))
     drift, notes = wc.judge(ctx, binary, "send", vecs, results, k, "send")
+    # the same vectors while the first write(s) of the connection fail (temporary / permanent / two temporary failures)
+    fvecs = [v for v in allvecs if v.get("wf", "none") != "none" and v["call"].get("idc", "rand") != "sweep"
+             and (not ctx.quick or v["nic"] == "nicA")]
+    kf = 1 if ctx.quick else 4
+    fresults, fsummary = wc.drive(ctx, binary, "send", fvecs, kf, "sendfail", timeout=1800)
+    fdrift, fnotes = wc.judge(ctx, binary, "send", fvecs, fresults, kf, "sendfail")
+    drift += [d for d in fdrift if d["key"] not in {x["key"] for x in drift}]
+    cov["write_failures"] = {"vectors": len(fvecs), "instances": fsummary.get("instances"), "driver_findings": fsummary.get("findings", {})}
     # send histories through the shared buffer pool: every ordered pair of the canonical calls, 0xEE / previous-frame variants
     pvecs, pr = wc.tlc_part(ctx, "pairs", {"NICs": '{"nicA"}' if ctx.quick else NICS, "Parts": '{"pairs"}'}, timeout=1200)
     pvecs = [v for v in pvecs if "prev" in v]
@@ -292,7 +302,7 @@ def run(ctx):
     nframes, _ = history_frames(ctx, cov)
     cov.update({
         "evaluations": summary["instances"] - nskipped + nframes + summary.get("sweep_calls", 0) + (psummary.get("instances") or 0)
-        + cov["send_concurrent_stage"].get("executions", 0),
+        + cov["send_concurrent_stage"].get("executions", 0) + (fsummary.get("instances") or 0),
         "sweep_calls": summary.get("sweep_calls", 0),
         "distinct_nontrivial": len(distinct),
         "states": r.distinct + pr.distinct, "transitions": r.generated + pr.generated,
